@@ -158,7 +158,7 @@ class VoronoiFPS(GreedySelector):
         self.vlocation_of_idx = np.full(n_to_select_from, 1)
         # index of the voronoi cell associated with each of the columns of X
 
-        self.dSL_ = np.zeros(self.n_to_select, float)
+        self.dSL_ = np.zeros(n_to_select, float)
         # distance between new selected point and previously
         # selected points
 
